@@ -464,6 +464,14 @@ static int parse_align(AsmContext *asm_context, int num)
     return -1;
   }
 
+  // Zero or a negative value would count the address up to a multiple
+  // of 2^31 or 2^32.
+  if (num < 1)
+  {
+    print_error(asm_context, "align constant too small");
+    return -1;
+  }
+
   mask = num - 1;
 
   while ((asm_context->address & mask) != 0)
